@@ -44,11 +44,12 @@ def wf (c : Case) : Bool :=
 
 /-- names under which attrs itself provides an object to generated code -/
 def attrsObjectNames : List String :=
-  ["NOTHING", "attr_dict", "_config", "_compat", "_cached_setattr_get"]
+  ["NOTHING", "attr_dict", "_config", "_compat", "_cached_setattr_get", "cached_properties", "original_getattr"]
 
 /-- builtins the generated methods use by name -/
 def usedBuiltins : List String :=
-  ["NotImplemented", "AttributeError", "BaseException", "id", "getattr", "hash", "object", "__import__"]
+  ["NotImplemented", "AttributeError", "BaseException", "id", "getattr", "hash", "object", "__import__",
+   "super", "hasattr"]
 
 def initRuns (f : Field) : Bool := inInit f
 
@@ -127,13 +128,16 @@ def cacheWf (c : CacheCase) : Bool :=
 def entryOf (entries : List (String × Nat)) (fn : String) : Option Nat :=
   (entries.find? (·.1 == fn)).map (·.2)
 
+def Def.refused (d : Def) : Bool := d.fails == some true
+
 def cacheSpec (c : CacheCase) (o : CacheObs) : Bool :=
   o.files.length == c.defs.length &&
-  -- each class's filename maps to that class's own script
-  (c.defs.zip o.files).all (fun p => entryOf o.entries p.2 == some p.1.script) &&
+  -- each class's filename maps to that class's own script — whatever definitions, successful or
+  -- refused after code generation, came before, after or in between
+  (c.defs.zip o.files).all (fun p => p.1.refused || entryOf o.entries p.2 == some p.1.script) &&
   -- classes with different source never share a filename
   (c.defs.zip o.files).all (fun p => (c.defs.zip o.files).all (fun q =>
-      p.1.script == q.1.script || p.2 != q.2)) &&
+      p.1.refused || q.1.refused || p.1.script == q.1.script || p.2 != q.2)) &&
   -- what was cached before is still cached
   (c.pre.all (fun p => entryOf o.entries (candidate (uniqueFilename "methods" c.modul p.1) p.2.1) == some p.2.2)) &&
   -- the cached text is the code that runs, for every class, and later definitions leave it alone
@@ -142,9 +146,13 @@ def cacheSpec (c : CacheCase) (o : CacheObs) : Bool :=
 
 def cacheKnown (_ : CacheCase) : List String := []
 
-def agreeB (m o : CacheObs) : Bool :=
+/-- filenames of the classes that exist (a refused definition leaves no class to ask) -/
+def liveFiles (c : CacheCase) (files : List String) : List String :=
+  (c.defs.zip files).map (fun p => if p.1.refused then "" else p.2)
+
+def agreeB (c : CacheCase) (m o : CacheObs) : Bool :=
   if o.realised then
-    m.files == o.files && sameSet m.entries o.entries && m.sourceOk == o.sourceOk && m.stable == o.stable
+    m.files.length == o.files.length && liveFiles c m.files == liveFiles c o.files && sameSet m.entries o.entries && m.sourceOk == o.sourceOk && m.stable == o.stable
   else
     -- an interleaving the interpreter would not take: only the schedule-independent part is compared
     m.sourceOk == o.sourceOk && m.stable == o.stable && m.files.length == o.files.length
@@ -166,7 +174,7 @@ def handle (case obs : Json) : Except String Reply := do
     let c ← fromJson? (α := CacheCase) case
     let o ← fromJson? (α := CacheObs) obs
     let m := cacheModel c
-    pure { agree := agreeB m o, specModel := cacheSpec c m, specObs := cacheSpec c o, wf := cacheWf c,
+    pure { agree := agreeB c m o, specModel := cacheSpec c m, specObs := cacheSpec c o, wf := cacheWf c,
            known := cacheKnown c, model := toJson m }
 
 end Attrs.C17
